@@ -352,6 +352,14 @@ def replay(o, ctx, script="c14_consistency.py"):
             _REPLAY[script] = {"error": str(e)[-300:]}
     res = _REPLAY[script]
     o.cex = dict(o.cex or {}, native_replay=res)
+    if res.get("n", 0) == 0 and "sort_by_path" in o.name:
+        # the order of paths inside a group: the real FileGroup::sort_by_path on every permutation of a menu of troublesome names
+        dev = sort_by_path_replay(ctx)
+        if dev:
+            o.stats["traces_validated"] = 1
+            o.cex["native_sort"] = dev
+            o.detail += "; replayed natively with the real FileGroup::sort_by_path: %s" % json.dumps(dev)[:300]
+            return
     if res.get("n", 0) > 0:
         o.stats["traces_validated"] = 1
         o.detail += "; replayed natively (CLI, header recomputed from the body): %s" % json.dumps(res["deviations"][0])[:300]
@@ -359,3 +367,40 @@ def replay(o, ctx, script="c14_consistency.py"):
         o.verdict = "inconclusive"
         o.detail = "counterexample did not reproduce through the CLI consistency matrix (%s): %s" % (
             res.get("error") or "%d runs, no deviation" % res.get("runs", 0), o.detail)
+
+
+def sort_by_path_replay(ctx):
+    """real FileGroup::sort_by_path (replay/group_test.rs) on all permutations of small path menus (invalid UTF-8 bytes that collide
+    under lossy conversion, upper/lower case, prefixes, with and without isolate roots): the result must be the ascending
+    component-wise byte order (roots first, in the given order) and must not depend on the input order"""
+    import itertools
+    import os
+    import sys
+    from common import VERIF, copy_repo, scratch_root
+    sys.path.insert(0, os.path.join(VERIF, "replay"))
+    import native_driver
+    try:
+        src = copy_repo("group-replay-src")
+        drv = native_driver.NativeDriver(src, scratch_root(), [("semaphore", "sem_peek.rs", "verif_sem_peek"), ("group", "group_test.rs", "verif_group_test")])
+    except Exception as ex:   # noqa
+        return None
+    menus = [([], [b"/d/caf\xe9.txt", b"/d/caf\xe8.txt", b"/d/a", b"/d/cafe"]),
+             ([], [b"/d/B", b"/d/a", b"/d/a/b", b"/d/a b"]),
+             ([b"/r2", b"/r1"], [b"/r1/x", b"/r2/y", b"/r1/a", b"/r2/\xff", b"/r2/\xfe"]),
+             ([b"/r1"], [b"/o/z", b"/r1/\xe9", b"/r1/\xe8", b"/o/a"])]
+    key = lambda p: [c for c in p.split(b"/")]
+    for roots, paths in menus:
+        def rank(p):
+            for i, r in enumerate(roots):
+                if p.startswith(r + b"/"):
+                    return i
+            return len(roots)
+        want = sorted(paths, key=lambda p: (rank(p), key(p)))
+        lines = ["SP %d %s %s" % (len(roots), " ".join(r.hex() for r in roots), " ".join(p.hex() for p in perm)) for perm in itertools.permutations(paths)]
+        lines = [" ".join(l.split()) for l in lines]
+        out = drv.run("group::verif_group_test::verif_group_driver", lines, "sp")
+        for perm, l in zip(itertools.permutations(paths), out):
+            got = [bytes.fromhex(h) for h in l.split()]
+            if got != want:
+                return {"roots": [repr(r) for r in roots], "input_order": [repr(p) for p in perm], "sorted": [repr(p) for p in got], "documented": [repr(p) for p in want]}
+    return None
